@@ -66,7 +66,9 @@ def rejected_release_changes_nothing(ctx):
     ok = False
     for n in own_nodes(f.node):
         if isinstance(n, ast.Compare) and len(n.ops) == 2 and all(isinstance(o, ast.Lt) for o in n.ops):
-            if '_lowest_sequence' in norm(n.left) and 'max_sequence' in norm(n.comparators[1]) or '_tag_sequences' in norm(n.comparators[1]):
+            left = norm(q.inline_locals(f, n.left))
+            right = norm(q.inline_locals(f, n.comparators[1]))
+            if '_lowest_sequence' in left and ('_tag_sequences' in right or 'max_sequence' in norm(n.comparators[1])):
                 ok = True
     ctx.ob(f, 'pending release only for lowest < token < next sequence', ok, 'a never-issued or already-released token must not be queued as pending')
 
